@@ -17,11 +17,16 @@ import Driver.Parse
 namespace Driver
 open Wbxml Wbxml.Spec.Xml Wbxml.Model
 
-partial def xEvents : XItem → List String
+mutual
+def xEvents : XItem → List String
   | .text s => [s!"C:{hx s}"]
   | .elem n attrs kids =>
     let a := String.join (attrs.map fun (k, v) => s!";{hx k}={hx v}")
-    [s!"S:0:{hx n}{a}"] ++ (kids.map xEvents).flatten ++ [s!"E:0:{hx n}"]
+    [s!"S:0:{hx n}{a}"] ++ xEventsL kids ++ [s!"E:0:{hx n}"]
+def xEventsL : List XItem → List String
+  | [] => []
+  | x :: r => xEvents x ++ xEventsL r
+end
 
 def optHx : Option Bytes → String
   | some b => hx b
@@ -48,6 +53,7 @@ def specxVerb (args : List String) : String :=
       XVIEW <lang> <charset> <gen> <indent> <keep> <hex>
         →  V 1 <events>     the tree the model builds is `xmlRepresentable`; `<events>` is what the theorem
                             says a reader gets: D:<1.0>:~ Y:<sysid>:<pubid> and the events of `xview cfg t`
+                            (indented generation, `indent_output_denotes_tree_partial`: up to blanks in character data)
         →  V 0              the tree is not representable (or the conversion fails): the theorem says nothing -/
 def xviewVerb (args : List String) : String :=
   match args with
@@ -63,7 +69,7 @@ def xviewVerb (args : List String) : String :=
         match t.lang with
         | none => "V 0"
         | some l =>
-          if Wbxml.Lemmas.XmlSpec.xmlRepresentable cfg t && (cfg.gen == 0 || cfg.gen == 2) then
+          if Wbxml.Lemmas.XmlSpec.xmlRepresentable cfg t then
             let d : XDoc := { version := some b!"1.0", doctype := some (Wbxml.Lemmas.XmlSpec.xdoctype l),
                               root := Wbxml.Lemmas.XmlSpec.xview cfg t }
             "V 1 " ++ ",".intercalate (xDocEvents d)
